@@ -249,7 +249,7 @@ fn gen_code(r: &mut Rng, want_angles: usize, named: bool, loose: bool, h: &mut H
         parts.insert(at, p);
     }
     // balance the `name(` openers
-    let opens = parts.iter().filter(|p| p.ends_with('(') && p.len() > 1 && !p.starts_with('f')).count();
+    let opens = parts.iter().filter(|p| p.ends_with('(')).count();
     let mut s = String::new();
     for (i, p) in parts.iter().enumerate() {
         if i > 0 && r.chance(2, 3) {
@@ -307,7 +307,7 @@ fn gen_surface(r: &mut Rng, h: &mut Hist) -> String {
         let untyped = declared.is_none();
         let n_alts = if untyped { 1 } else { n_alts };
         for _ in 0..n_alts {
-            let n_sym = if r.chance(1, 8) { 0 } else { 1 + r.below(4) };
+            let n_sym = if !untyped && r.chance(1, 8) { 0 } else { 1 + r.below(4) };
             let mode = if untyped { r.below(2) } else { r.below(5) }; // 0 plain 1 chosen 2 named 3 tuple(+chosen) 4 named+tuple
             let mut syms: Vec<String> = vec![];
             let mut used: BTreeSet<&str> = BTreeSet::new();
@@ -345,10 +345,10 @@ fn gen_surface(r: &mut Rng, h: &mut Hist) -> String {
                         any_named = true;
                         selected += 1;
                         let (a, b, c) = (fresh(r, &mut used_s), fresh(r, &mut used_s), fresh(r, &mut used_s));
-                        match r.below(4) {
-                            0 => format!("<({a}, {b}):TP>"),
-                            1 => format!("<(mut {a}, {b}):TP>"),
-                            2 => format!("<({a}, ({b}, mut {c})):TQ>"),
+                        match r.below(10) {
+                            0..=2 => format!("<({a}, {b}):TP>"),
+                            3..=5 => format!("<(mut {a}, {b}):TP>"),
+                            6..=8 => format!("<({a}, ({b}, mut {c})):TQ>"),
                             _ => format!("<({a}, {b}, {c}):TP>"), // wrong arity: rejected by tyinfer
                         }
                     }
@@ -364,7 +364,7 @@ fn gen_surface(r: &mut Rng, h: &mut Hist) -> String {
             if !any_named {
                 selected = if chosen > 0 { chosen } else { n_sym };
             }
-            let action = if any_named || (!untyped && r.chance(3, 5)) {
+            let action = if any_named || n_sym == 0 || (!untyped && r.chance(3, 5)) {
                 let want = match r.below(10) {
                     0 => 0,
                     1..=4 => 1,
@@ -609,7 +609,8 @@ fn gen_vsym(r: &mut Rng, later: &[(String, Ty)], avoid: Option<&str>) -> VSym {
     match r.below(20) {
         0..=7 => VSym { text: format!("\"{}\"", term(r)), ty: Ty::Tok },
         8..=13 if !later.is_empty() => {
-            let (n, t) = r.pick(later).clone();
+            let tuples: Vec<&(String, Ty)> = later.iter().filter(|(_, t)| matches!(t, Ty::Tup(v) if v.len() == 2)).collect();
+            let (n, t) = if !tuples.is_empty() && r.chance(1, 2) { (*r.pick(&tuples)).clone() } else { r.pick(later).clone() };
             VSym { text: n, ty: t }
         }
         14 => VSym { text: format!("\"{}\"?", term(r)), ty: Ty::Opt(Box::new(Ty::Tok)) },
@@ -637,9 +638,16 @@ fn explicit_alt(r: &mut Rng, label: &str, syms: &[VSym], tuple_fixed: bool, h: &
     let vars = ["a", "b", "c", "d", "e"];
     let fallible = r.chance(1, 5);
     let wrap = |code: String| if fallible { format!("=>? Ok({code})") } else { format!("=> {code}") };
-    let style = r.below(8);
     let has_tuple2 = syms.iter().position(|s| matches!(&s.ty, Ty::Tup(v) if v.len() == 2));
     let has_string = syms.iter().position(|s| s.ty == Ty::Str);
+    // binding forms that need a particular type are taken when the type is there
+    let style = if has_tuple2.is_some() && r.chance(3, 5) {
+        6 + r.below(2)
+    } else if has_string.is_some() && r.chance(1, 4) {
+        5
+    } else {
+        r.below(8)
+    };
     match style {
         // anonymous: all symbols
         0 => {
@@ -1025,9 +1033,9 @@ fn render_look(nts: &[N2], ascent: bool) -> String {
 /// derivation tree of the look grammars; tokens get their index, spans are filled in afterwards
 #[derive(Clone, Debug)]
 enum LT {
-    U(bool, String, Vec<LT>),
-    O(Vec<LT>),
-    S(Vec<LT>),
+    U(Option<String>, String, Vec<LT>), // name of the nonterminal when it is inlined, label, kids
+    O(String, Vec<LT>),                 // name of the `X?` nonterminal
+    S(String, Vec<LT>),
     T(String, usize),
     L,
     R,
@@ -1045,11 +1053,12 @@ fn derive_look(nts: &[N2], r: &mut Rng, i: usize, toks: &mut Vec<String>) -> LT 
             }
             It::N(j) => derive_look(nts, r, *j, toks),
             It::Opt(t) => {
+                let name = format!("\"{}\"?", TERMS[*t]);
                 if r.chance(1, 2) {
                     toks.push(TERMS[*t].to_string());
-                    LT::O(vec![LT::T(TERMS[*t].to_string(), toks.len() - 1)])
+                    LT::O(name, vec![LT::T(TERMS[*t].to_string(), toks.len() - 1)])
                 } else {
-                    LT::O(vec![])
+                    LT::O(name, vec![])
                 }
             }
             It::Star(t) => {
@@ -1058,39 +1067,74 @@ fn derive_look(nts: &[N2], r: &mut Rng, i: usize, toks: &mut Vec<String>) -> LT 
                     toks.push(TERMS[*t].to_string());
                     v.push(LT::T(TERMS[*t].to_string(), toks.len() - 1));
                 }
-                LT::S(v)
+                LT::S(format!("\"{}\"*", TERMS[*t]), v)
             }
             It::L => LT::L,
             It::R => LT::R,
         });
     }
-    LT::U(n.inline, a.label.clone(), kids)
+    LT::U(if n.inline { Some(format!("N{i}")) } else { None }, a.label.clone(), kids)
 }
 
-fn show_lt(t: &LT, spans: &[(usize, usize)]) -> String {
+fn show_lt(t: &LT, spans: &[(usize, usize)], rank: &BTreeMap<String, usize>) -> String {
+    let rk = |n: &str| rank.get(n).map(|x| x.to_string()).unwrap_or_else(|| "?".to_string());
     match t {
         LT::U(inl, l, ks) => {
-            let mut s = format!("(u {} {}", *inl as u8, enc_str(l));
+            let mut s = match inl {
+                Some(n) => format!("(u 1 {} {}", rk(n), enc_str(l)),
+                None => format!("(u 0 - {}", enc_str(l)),
+            };
             for k in ks {
                 s.push(' ');
-                s.push_str(&show_lt(k, spans));
+                s.push_str(&show_lt(k, spans, rank));
             }
             s.push(')');
             s
         }
-        LT::O(ks) | LT::S(ks) => {
-            let mut s = String::from(if matches!(t, LT::O(_)) { "(o" } else { "(s" });
+        LT::O(n, ks) | LT::S(n, ks) => {
+            let mut s = format!("({} {}", if matches!(t, LT::O(..)) { "o" } else { "s" }, rk(n));
             for k in ks {
                 s.push(' ');
-                s.push_str(&show_lt(k, spans));
+                s.push_str(&show_lt(k, spans, rank));
             }
             s.push(')');
             s
         }
         LT::T(x, i) => format!("(t {} {} {})", enc_str(x), spans[*i].0, spans[*i].1),
-        LT::L => "(L)".to_string(),
-        LT::R => "(R)".to_string(),
+        LT::L => format!("(L {})", rk("@L")),
+        LT::R => format!("(R {})", rk("@R")),
     }
+}
+
+/// position of every `#[inline]` nonterminal in `inline_order`, from the model of the inliner
+/// (`lpm_inline order`, the C14 driver), keyed by name
+fn inline_ranks(lpm_inline: &str, text: &str) -> BTreeMap<String, usize> {
+    use std::io::Write;
+    let mut m = BTreeMap::new();
+    let lower = stage(text, "lower");
+    let Some(lower_sx) = lower.strip_prefix("ok ") else { return m };
+    let pt = stage(text, "tyinfer");
+    let Some(psx) = pt.strip_prefix("ok ").and_then(sx_parse) else { return m };
+    let names: Vec<String> = pt_nts(&psx).into_iter().filter(|n| n.inline).map(|n| n.name).collect();
+    let names_s = if names.is_empty() { "-".to_string() } else { names.join(",") };
+    let Ok(mut child) = std::process::Command::new(lpm_inline)
+        .stdin(std::process::Stdio::piped())
+        .stdout(std::process::Stdio::piped())
+        .spawn()
+    else {
+        return m;
+    };
+    writeln!(child.stdin.take().unwrap(), "order {names_s} {lower_sx}").unwrap();
+    let out = child.wait_with_output().unwrap();
+    let line = String::from_utf8_lossy(&out.stdout).trim().to_string();
+    if let Some(list) = line.strip_prefix("ok ") {
+        for (i, hexname) in list.split(',').enumerate() {
+            if let Some(n) = dec_str(hexname) {
+                m.insert(n, i);
+            }
+        }
+    }
+    m
 }
 
 const LOOK_PRELUDE: &str = r#"
@@ -1293,6 +1337,7 @@ fn main() {
     let mut n_vals = 24usize;
     let mut n_emit = 60usize;
     let mut n_comp = 12usize;
+    let mut lpm_inline = String::from("/verif/lean/.lake/build/bin/lpm_inline");
     let mut it = o.extra.iter();
     while let Some(a) = it.next() {
         match a.as_str() {
@@ -1302,6 +1347,7 @@ fn main() {
             "--vals" => n_vals = it.next().unwrap().parse().unwrap(),
             "--emit" => n_emit = it.next().unwrap().parse().unwrap(),
             "--comp" => n_comp = it.next().unwrap().parse().unwrap(),
+            "--lpm-inline" => lpm_inline = it.next().unwrap().clone(),
             _ => {}
         }
     }
@@ -1322,7 +1368,7 @@ fn main() {
             "grammar;\npub A: String = \"a\" => foo(<>, <>);\n".into(),
             "grammar;\npub A: String = <(mut a, b):B> \"c\" => format!(\"{}\", (<>).0);\nB: (String, String) = \"x\" \"y\" => (<>.to_string(), <>.to_string());\n".into(),
             "grammar;\npub A: String = <(a, b):B> <c:\"c\"> => P {<>}.show();\nB: (String, String) = \"x\" \"y\" => (<>.to_string(), <>.to_string());\n".into(),
-            "grammar;\npub A: () = \"a\" B;\nB = \"b\" <\"c\"> \"d\";\npub C = \"c\" \"d\";\nD: () = ;\n".into(),
+            "grammar;\npub A: () = \"a\" B;\nB = \"b\" <\"c\"> \"d\";\npub C = \"c\" \"d\";\nD: () = => ();\nE: String = => <>;\n".into(),
         ];
         while st.count < o.n && tries < o.n * 6 {
             tries += 1;
@@ -1331,6 +1377,9 @@ fn main() {
             if !pt.starts_with("ok ") {
                 let stg = pt.split(' ').nth(1).unwrap_or("?").to_string();
                 h.hit(&format!("rejected:{stg}"));
+                if std::env::var("LOWER_DUMP_REJECTED").is_ok() {
+                    eprintln!("REJECTED {pt}\n{text}");
+                }
                 continue;
             }
             let pt_sx_text = &pt[3..];
@@ -1538,11 +1587,17 @@ fn main() {
         let mut comp: Vec<LG> = vec![];
         let mut files: Vec<(String, String)> = vec![];
         let mut emitted = 0usize;
+        let mut comp_bytes = 0usize;
         let mut tries = 0usize;
         let mut sample = String::new();
-        while (emitted < n_emit || comp.len() < n_comp) && tries < (n_emit + n_comp) * 40 {
+        while (emitted < n_emit || (comp.len() < n_comp && comp_bytes < 900_000)) && tries < (n_emit + n_comp) * 12 {
             tries += 1;
-            let nts = gen_look_grammar(&mut r, &mut h);
+            let nts = if tries == 1 {
+                // fixed witness: `@L` directly followed by `@R` between two tokens
+                vec![N2 { inline: false, alts: vec![A2 { items: vec![It::T(2), It::L, It::R, It::T(3)], label: "W".into() }] }]
+            } else {
+                gen_look_grammar(&mut r, &mut h)
+            };
             let text_t = render_look(&nts, false);
             let inl = stage(&text_t, "inline");
             if !inl.starts_with("ok ") || inl.len() > 60_000 {
@@ -1562,7 +1617,7 @@ fn main() {
             if sample.is_empty() {
                 sample = text_t.clone();
             }
-            if comp.len() < n_comp && code_t.len() < 400_000 {
+            if comp.len() < n_comp && code_t.len() < 110_000 && comp_bytes < 900_000 {
                 let text_a = render_look(&nts, true);
                 let code_a = match generate_parser(&gen_dir, &format!("{stem}a"), &text_a, |_| {}) {
                     Ok(c) => c,
@@ -1571,8 +1626,14 @@ fn main() {
                         continue;
                     }
                 };
-                if code_a.len() > 900_000 {
+                if code_a.len() > 200_000 {
                     h.hit("look-skipped:ascent-too-large");
+                    continue;
+                }
+                comp_bytes += code_t.len() + code_a.len();
+                let rank = inline_ranks(&lpm_inline, &text_t);
+                if rank.is_empty() {
+                    h.hit("look-skipped:no-inline-order");
                     continue;
                 }
                 let mut inputs = vec![];
@@ -1592,7 +1653,7 @@ fn main() {
                     }
                     text.push_str(&" ".repeat(r.below(3)));
                     if seen.insert(toks.join(" ")) {
-                        inputs.push((text, show_lt(&tree, &spans)));
+                        inputs.push((text, show_lt(&tree, &spans, &rank)));
                     }
                     if inputs.len() >= 14 {
                         break;
@@ -1608,6 +1669,7 @@ fn main() {
         st.finish();
         let mut ct = Streams::create(&o.out, "lookc_t");
         let mut ca = Streams::create(&o.out, "lookc_a");
+        let mut cr = Streams::create(&o.out, "lookrule");
         let mut comp_inputs = 0usize;
         if !comp.is_empty() {
             let mut main = String::from(LOOK_PRELUDE);
@@ -1642,9 +1704,12 @@ fn main() {
                     }
                     for (gi, g) in comp.iter().enumerate() {
                         for (ii, (_, tree)) in g.inputs.iter().enumerate() {
-                            let req = format!("lookeval {tree}");
-                            ct.case(&req, &table.get(&("t".into(), gi, ii)).cloned().unwrap_or_else(|| "<no output>".into()));
+                            let req = format!("lookmodel {tree}");
+                            let t_out = table.get(&("t".into(), gi, ii)).cloned().unwrap_or_else(|| "<no output>".into());
+                            ct.case(&req, &t_out);
                             ca.case(&req, &table.get(&("a".into(), gi, ii)).cloned().unwrap_or_else(|| "<no output>".into()));
+                            // the property itself: the C06 rule on the derivation vs the real parser
+                            cr.case(&format!("lookeval {tree}"), &t_out);
                             comp_inputs += 1;
                         }
                     }
@@ -1660,6 +1725,7 @@ fn main() {
         }
         ct.finish();
         ca.finish();
+        cr.finish();
         let gram_texts: Vec<String> = comp.iter().map(|g| json_str(&g.text_t)).collect();
         let input_texts: Vec<String> = comp
             .iter()
